@@ -911,6 +911,17 @@ def run(ck: Check):
                 'maximal_matching: the result ' + why,
                 {'n': n, 'edges': edges, 'edges_to_ignore': list(ignore),
                  'randomize': randomize, 'result': r})
+        # the same result through the Lean checker `validMatching` (whose
+        # meaning is the theorem C20_maximal_matching)
+        if all(isinstance(e, tuple) and len(e) == 2 and min(e) >= 0
+               for e in list(r) + list(ignore)):
+            add(f'matchcheck {gline(n, edges)} | '
+                + ' '.join(f'{a} {b}' for a, b in ignore) + ' | '
+                + ' '.join(f'{a} {b}' for a, b in r),
+                'true', str(why is None).lower(),
+                ('mmc', n, tuple(sorted(nes)), tuple(ignore), randomize,
+                 tuple(sorted(ms))),
+                'maximal_matching-differs-from-definition')
         ck.count(('mm', n, tuple(sorted(nes)), tuple(ignore), randomize,
                   tuple(sorted(ms))))
         ck.bump('relational_cases', 'maximal_matching')
@@ -931,7 +942,9 @@ def run(ck: Check):
     # ------------------------------------------------------------------
     # get_rooted_minimum_span(root) on connected graphs (relational): n-1
     # pairs (parent, child), each an edge of g, parent already reached, every
-    # vertex reached exactly once.
+    # vertex reached exactly once, and the tree is a BFS tree (depth in the tree
+    # = hop distance from the root).  The DFS pre-order of the listing is not
+    # checked.  The same result goes through the Lean checker validMinSpan.
     for n, edges, small in graphs:
         nes = {tuple(sorted(e)) for e in edges}
         if not o_connected(n, nes):
@@ -953,13 +966,26 @@ def run(ck: Check):
                         break
                     reached.add(pr[1])
                 good = good and len(reached) == n
+            if good:        # "minimum": a BFS tree (tree depth = hop distance)
+                depth = {root: 0}
+                for a, b in r:
+                    depth[b] = depth[a] + 1
+                good = depth == o_hops(n, nes, root)
             if not good:
                 ck.violation(
                     'rooted_span-differs-from-definition',
                     'get_rooted_minimum_span: the result is not a list of n-1 '
                     'graph edges (parent, child) that connects the root to '
-                    'every qudit, parents first',
+                    'every qudit by shortest paths, parents first',
                     {'n': n, 'edges': edges, 'root': root, 'result': r})
+            if isinstance(r, list) and all(
+                    isinstance(x, tuple) and len(x) == 2 for x in r):
+                # through the Lean checker `validMinSpan` (theorem C20_rooted_span)
+                add(f'spancheck {gline(n, edges)} | {root} | '
+                    + ' '.join(f'{a} {b}' for a, b in r),
+                    'true', str(bool(good)).lower(),
+                    ('spanc', n, tuple(sorted(nes)), root, tuple(r)),
+                    'rooted_span-differs-from-definition')
             ck.count(('span', n, tuple(sorted(nes)), root))
             ck.bump('relational_cases', 'rooted_minimum_span')
 
@@ -1096,8 +1122,10 @@ def run(ck: Check):
         'subset) on <= 4 vertices plus seeded random ones; malformed '
         'get_subgraph renumberings (wrong size / keys / shifted / too large / '
         'non-injective / negative values) whose definition is "must raise"; '
-        'maximal_matching and get_rooted_minimum_span are checked relationally'
-        ' on the implementation only. Kronecker requests (kron-*): random '
+        'maximal_matching and get_rooted_minimum_span depend on set order: '
+        'every real result is checked relationally by a harness oracle and by '
+        'the Lean checkers validMatching / validMinSpan (matchcheck, spancheck)'
+        '. Kronecker requests (kron-*): random '
         'monomial matrices with entries in {0,+-1,+-i} over mixed radixes '
         '2/3/4: otimes of 1-3 operands, ipower with powers -5..7, builder '
         'sequences of 1-4 apply_left/apply_right (random unsorted locations, '
